@@ -20,3 +20,55 @@ for W, short in (("hypercorn.asyncio.worker_context", "asyncio"), ("hypercorn.tr
     fn(WC + ".__init__", params={"max_requests": "opt int"},
        ensures=[("C18.ctx.init", "self.requests == 0 and not self.terminate.flag and not self.terminated.flag", "C18")],
        props=("C18", "C16"))
+
+# ------------------------------------------------------------------------------------------------
+# C16: the two EventWrapper classes refine the same interface contract (hypercorn.typing:Event);
+# the abstract flag is the flag of the wrapped runtime event.
+for W, EV in (("hypercorn.asyncio.worker_context", "asyncio:Event"), ("hypercorn.trio.worker_context", "trio:Event")):
+    EW = W + ":EventWrapper"
+    cls(EW, fields={"_event": "obj " + EV})
+    fn(EW + ".__init__", params={}, ensures=[("C16.Event.init", "not self._event.flag", "C16")], props=("C16",))
+    fn(EW + ".set", params={}, effect="atomic", modifies=["self._event.flag"],
+       ensures=[("C16.Event.set", "self._event.flag", "C16")], props=("C16",))
+    fn(EW + ".clear", params={}, effect="atomic", modifies=["self._event", "self._event.flag"],
+       ensures=[("C16.Event.clear", "not self._event.flag", "C16")], props=("C16",))
+    fn(EW + ".is_set", params={}, effect="atomic", modifies=[], returns="bool",
+       ensures=[("C16.Event.is_set", "result == self._event.flag", "C16")], props=("C16",))
+    fn(EW + ".wait", params={}, modifies=[], ensures=[("C16.Event.wait", "yielded()", "C16")], props=("C16",))
+
+# C05 / C16: both _handle wrappers contain an application failure the same way
+HANDLE_PARAMS = {"config": "obj hypercorn.config:Config", "scope": "opaque", "receive": "opaque",
+                 "send": "callable{record:send_calls}", "sync_spawn": "opaque", "call_soon": "opaque"}
+fn("hypercorn.asyncio.task_group:_handle",
+   params=dict(HANDLE_PARAMS, app="callable{record:app_calls;raises:Exception,asyncio.CancelledError}"),
+   raises={"asyncio.CancelledError": {"ensures": [("C05.handle.cancel-still-finishes", "n_emitted('send_calls') >= 1", "C05")]}},
+   ensures=[
+       # C05.handle: the stream is always told that the application is done, the failure is logged
+       # exactly when the application raised, and nothing escapes
+       ("C05.handle.finishes", "n_emitted('send_calls') >= 1 and trace_all('send_calls', 'x', x is None)", "C05,C16"),
+       ("C05.handle.app-once", "n_emitted('app_calls') == 1", "C05,C17,C16"),
+       ("C05.handle.logged", "n_emitted('send_calls') == 1 and trace_all('calls', 'x', x[0] != 'Logger.exception') or trace_any('calls', 'x', x[0] == 'Logger.exception')", "C05"),
+   ],
+   props=("C05", "C16"))
+fn("hypercorn.trio.task_group:_handle",
+   params=dict(HANDLE_PARAMS, app="callable{record:app_calls;raises:Exception,trio.Cancelled,BaseExceptionGroup}"),
+   raises={"trio.Cancelled": {"ensures": [("C05.handle.cancel-still-finishes", "n_emitted('send_calls') >= 1", "C05")]},
+           "BaseExceptionGroup": {"ensures": [("C05.handle.group-still-finishes", "n_emitted('send_calls') >= 1", "C05")]}},
+   ensures=[
+       ("C05.handle.finishes", "n_emitted('send_calls') >= 1 and trace_all('send_calls', 'x', x is None)", "C05,C16"),
+       ("C05.handle.app-once", "n_emitted('app_calls') == 1", "C05,C17,C16"),
+   ],
+   props=("C05", "C16"))
+
+
+# ------------------------------------------------------------------------------------------------
+# TaskGroup.spawn_app / spawn (C16: same interface contract on both workers; C01: one application
+# task per call; C17: the WSGI application is reached only through sync_spawn, i.e. off the loop)
+SPAWN_PARAMS = {"app": "opaque", "config": "obj hypercorn.config:Config", "scope": "opaque", "send": "opaque"}
+cls("hypercorn.asyncio.task_group:TaskGroup", fields={"_loop": "opaque", "_task_group": "obj asyncio:TaskGroup"})
+cls("hypercorn.trio.task_group:TaskGroup", fields={"_nursery": "opt obj trio:Nursery", "_nursery_manager": "opaque"})
+for TG in ("hypercorn.asyncio.task_group:TaskGroup", "hypercorn.trio.task_group:TaskGroup"):
+    fn(TG + ".spawn_app", params=SPAWN_PARAMS, effect="atomic", returns=None,
+       requires=[("spawn_app.pre.entered", "True" if "asyncio" in TG else "self._nursery is not None")],
+       ensures=[("C16.spawn_app.one-task", "n_emitted('spawned') == 1", "C16,C01")],
+       props=("C16", "C01"))
